@@ -9,6 +9,7 @@ CONSTANTS
   Secrets <- S1
   Questions <- Q0
   AllowEnd = FALSE
+  MaxRequery = 0
 INVARIANTS TypeOK QuietMeansEncrypted SlotsSuffice SlotBound NoSplice
 PROPERTIES BothEncrypted
 CHECK_DEADLOCK FALSE
